@@ -30,15 +30,33 @@ class RealBackend:
         self.psutil = psutil
         self.kids = []
 
+    @staticmethod
+    def _wait_zombie(pid, timeout=10.0):
+        # state changes are awaited on /proc, not slept for: the table must not depend on the machine's load
+        t0 = time.time()
+        while time.time() - t0 < timeout:
+            try:
+                with open('/proc/%d/stat' % pid) as f:
+                    st = f.read()
+                if st[st.rfind(')') + 2] == 'Z':
+                    return True
+            except OSError:
+                return True
+            time.sleep(0.005)
+        return False
+
     def spawn(self, code='import time; time.sleep(30)'):
         p = self.psutil.Popen([sys.executable, '-S', '-c', code])
         self.kids.append(p)
-        time.sleep(0.15)
+        if 'sys.exit' in code:
+            self._wait_zombie(p.pid)
+        else:
+            time.sleep(0.05)
         return p
 
     def ext_kill(self, pid, sig):
         os.kill(pid, sig)
-        time.sleep(0.15)
+        self._wait_zombie(pid)
 
     def waitpid(self, pid):
         return os.waitpid(pid, os.WNOHANG)
@@ -128,12 +146,14 @@ def battery(b):
 
 def calibrate():
     """-> None if the model matches the real API, else a description of the first mismatches"""
-    real = battery(RealBackend())
-    sim = battery(SimBackend())
-    bad = [(a, b) for a, b in zip(real, sim) if a != b]
-    if bad or len(real) != len(sim):
-        return 'kernel model mismatch (real, sim): %r' % bad[:6]
-    return None
+    bad = None
+    for attempt in range(3):
+        real = battery(RealBackend())
+        sim = battery(SimBackend())
+        bad = [(a, b) for a, b in zip(real, sim) if a != b]
+        if not bad and len(real) == len(sim):
+            return None
+    return 'kernel model mismatch (real, sim): %r' % bad[:6]
 
 
 if __name__ == '__main__':
